@@ -91,7 +91,21 @@ pub fn redeclared(k: &keys::Key, scheme: &str) -> Option<PublicKey> {
         "rsassa-pss-sha512" => in_toto::crypto::SignatureScheme::RsaSsaPssSha512,
         o => in_toto::crypto::SignatureScheme::Unknown(o.to_string()),
     };
-    PublicKey::from_spki(&spki, s).ok()
+    // the constructor is a function of (key, scheme), so that a replay takes the same route
+    match crate::prng::fnv(&format!("{}|{}", k.id, scheme)) % 3 {
+        1 => {
+            let b64 = data_encoding::BASE64.encode(&spki);
+            let mut pem = String::from("-----BEGIN PUBLIC KEY-----\n");
+            for chunk in b64.as_bytes().chunks(64) {
+                pem.push_str(std::str::from_utf8(chunk).unwrap_or(""));
+                pem.push('\n');
+            }
+            pem.push_str("-----END PUBLIC KEY-----\n");
+            PublicKey::from_pem_spki(&pem, s).ok()
+        }
+        2 if matches!(k.public.typ(), in_toto::crypto::KeyType::Ecdsa) => PublicKey::from_ecdsa_with_keyid_hash_algorithm(k.public.as_bytes().to_vec(), s, None).ok(),
+        _ => PublicKey::from_spki(&spki, s).ok(),
+    }
 }
 
 pub fn key_id_string(k: &PublicKey) -> String {
